@@ -185,7 +185,7 @@ def defectsD : FieldDecl → List String
   | .setOf _ item _ =>
     if isSetScalarOk item then []
     else if isEnumDecl item then defectsD item
-    else if isClassRef item then "set-of-structures:unproved" :: defectsD item
+    else if isClassRef item then "none-attribute-hash:set-of-structures" :: defectsD item
     else if isSetScalar item then ["set-of-none:unproved"]
     else ["dropped:set-items"]
   | .setAny _ _ => ["dropped:set-items"]
@@ -381,5 +381,61 @@ def kwIssues (cls : FieldDecl) (kw : List (String × PyVal)) : List String :=
             | none => if noDefault defaults p.1 then [] else ["defaults-not-applied"]
             | some v => rawIssuesV p.2 v).flatten).eraseDups
   | _ => ["not-a-class"]
+
+
+/-! ### documents of classes with mappers, read back to field names (driver only: lets the
+    document-level defect names be computed for class trees with mappers) -/
+
+def isContainerD : FieldDecl → Bool
+  | .struct _ _ _ | .seqOf _ _ _ | .setOf _ _ _ => true
+  | _ => false
+
+mutual
+def untrV (Mp : MapEnv) : FieldDecl → PyVal → PyVal
+  | .struct c fields _, v =>
+    if c.inline then v
+    else (match v with
+      | .dict kvs => (match kwOfDict kvs with
+        | some doc =>
+          let doc' := remapDoc (Mp c.name) (fields.map (·.1)) doc
+          .dict (untrFields Mp doc' fields
+                  ++ (doc'.filter fun a => !(fields.map (·.1)).contains a.1).map fun a => (PyVal.str a.1, a.2))
+        | none => v)
+      | _ => v)
+  | .seqOf _ item _, v => (match v with | .list xs => .list (xs.map (untrV Mp item)) | _ => v)
+  | .setOf _ item _, v => (match v with | .list xs => .list (xs.map (untrV Mp item)) | _ => v)
+  | .anyOf fs, v => untrFirst Mp fs v
+  | .integer _, v => v
+  | .number _, v => v
+  | .float _, v => v
+  | .string _ _ _, v => v
+  | .boolean, v => v
+  | .enumLit _, v => v
+  | .enumCls _ _, v => v
+  | .noneF, v => v
+  | .seqAny _ _, v => v
+  | .seqPos _ _ _ _, v => v
+  | .setAny _ _, v => v
+  | .tupleOf _ _, v => v
+  | .tuplePos _ _, v => v
+  | .mapAny _, v => v
+  | .mapOf _ _ _, v => v
+  | .oneOf _, v => v
+  | .allOf _, v => v
+  | .notF _, v => v
+  | .anything, v => v
+termination_by structural f _ => f
+def untrFirst (Mp : MapEnv) : List FieldDecl → PyVal → PyVal
+  | [], v => v
+  | f :: fs, v => if isContainerD f then untrV Mp f v else untrFirst Mp fs v
+termination_by structural fs _ => fs
+def untrFields (Mp : MapEnv) (doc : List (String × PyVal)) : List (String × FieldDecl) → List (PyVal × PyVal)
+  | [] => []
+  | (n, f) :: rest =>
+    (match lookup n doc with
+      | some v => [(PyVal.str n, untrV Mp f v)]
+      | none => []) ++ untrFields Mp doc rest
+termination_by structural fs => fs
+end
 
 end Typedpy
